@@ -142,7 +142,7 @@ def run_C01(ctx):
 
 
 def run_C08(ctx):
-    return check_rules(ctx, "C08", 50, 500, thin=5)
+    return check_rules(ctx, "C08", 50, 300, thin=6)
 
 
 # =================================================================================== formulas
